@@ -1,4 +1,62 @@
-From Radius Require Import Base.Bytes Base.Res Model.Gen.
-Theorem C17_gen_is_a_function : forall o d r1 r2, gen o d = r1 -> gen o d = r2 -> r1 = r2.
-Proof. intros; congruence. Qed.
-Print Assumptions C17_gen_is_a_function.
+(* C17 — generator output has the documented API shape and is canonical.
+   Model: Model/Gen.v, the decision layer of dictionarygen.Generate (validation loops, sorts, value
+   handling, emission order and signatures), tied to the code by the m.gen correspondence on random
+   and shipped dictionaries; "compiles" and "gofmt-formatted" are decided on the real output by
+   go/types and go/format on every run (harness C17), not in Coq. *)
+From Radius Require Import Base.Bytes Base.Res Model.Gen Proofs.Gen.
+From Coq Require Import Permutation.
+Open Scope Z_scope.
+
+(* Generate refines a declarative specification: it succeeds exactly on the accepted dictionaries,
+   then emits exactly [output]; otherwise it returns an error; it never panics *)
+Theorem C17_generate_refines_spec : forall o d,
+  match gen o d with
+  | Ok ds => accepts o d /\ ds = output o d
+  | Err _ => ~ accepts o d
+  | _ => False
+  end.
+Proof. exact gen_refines. Qed.
+Print Assumptions C17_generate_refines_spec.
+
+(* one function family per attribute kind *)
+Theorem C17_api_function_families : forall a vals, valid a ->
+  fnames (funcs a vals) =
+  if is_str (ga_type a) then
+    if is_concat a then [FGet; FGetString; FLookup; FLookupString; FSet; FSetString; FDel]
+    else [FAdd; FAddString; FGet; FGetString; FGets; FGetStrings; FLookup; FLookupString; FSet; FSetString; FDel]
+  else if ga_type a =? T_vsa then []
+  else [FAdd; FGet; FGets; FLookup; FSet; FDel].
+Proof. exact funcs_names. Qed.
+Print Assumptions C17_api_function_families.
+
+(* a tag parameter exactly when tagged, a request-packet parameter exactly when salt-encrypted *)
+Theorem C17_api_parameters : forall a vals id f tg q vt, valid a -> In (DFunc id f tg q vt) (funcs a vals) ->
+  id = ga_ident a /\ tg = (has_tag a && negb (is_del f)) /\ q = (salted a && is_getter f).
+Proof. exact funcs_flags. Qed.
+Print Assumptions C17_api_parameters.
+
+(* nothing at all for attributes on the ignore list: the result is that of the dictionary without them *)
+Theorem C17_ignored_leave_no_trace : forall o d,
+  (accepts o d <-> accepts (mkgopts [] (go_ext o)) (strip (go_ignore o) d)) /\
+  output o d = output (mkgopts [] (go_ext o)) (strip (go_ignore o) d).
+Proof. exact ignored_leave_no_trace. Qed.
+Print Assumptions C17_ignored_leave_no_trace.
+
+(* the order in which attributes, values, vendors and their members are declared does not change the output *)
+Theorem C17_order_independent : forall o d d', accepts o d -> distinct_keys o d -> dict_perm d d' ->
+  accepts o d' /\ output o d' = output o d.
+Proof. exact order_independent. Qed.
+Print Assumptions C17_order_independent.
+
+(* sort.Stable with a strict order yields the unique sorted permutation *)
+Theorem C17_sort_canonical : forall (A : Type) (lt : A -> A -> bool),
+  (forall x y, lt x y = true -> lt y x = false) ->
+  (forall x y z, lt z x = true -> lt x y = true -> lt z y = true) ->
+  forall l l', Permutation l l' ->
+  (forall x y, In x l -> In y l -> lt x y = false -> lt y x = false -> x = y) -> sort lt l = sort lt l'.
+Proof. exact @sort_of_permutation. Qed.
+Print Assumptions C17_sort_canonical.
+
+Theorem C17_example : accepts ex_o ex_d /\ distinct_keys ex_o ex_d /\ dict_perm ex_d ex_d'.
+Proof. exact ex_accepted. Qed.
+Print Assumptions C17_example.
